@@ -292,13 +292,22 @@ def _step_nondet(step_json):
         if not pair_deterministic(t1, t2):
             return "store target has no deterministic tokenization"
         return None
+    if op in ("create", "aop"):
+        # array-valued / list-valued parameters and operands: determinism is required exactly when dask.tokenize tokenizes
+        # two equal-but-distinct parameter objects deterministically and equally
+        for a, b in zip(param_objects(step), param_objects(step)):
+            if not pair_deterministic(a, b):
+                return f"{op} parameter object ({type(a).__name__}) has no deterministic tokenization"
+        return None
     return None
 
 
 def step_nondet(step):
-    if step.get("op") not in ("src", "store"):
+    if step.get("op") not in ("src", "store", "create", "aop"):
         return None
     if step["op"] == "src" and not step.get("fa"):
+        return None
+    if step["op"] == "create" and not step.get("params"):
         return None
     return _step_nondet(json.dumps(step, sort_keys=True))
 
@@ -464,6 +473,8 @@ def apply_random(step, A, m, da_mode):
     fam, meth = step["fn"].split(".", 1)
     shape = tuple(step.get("shape", ()))
     chunks = tuple(tuple(c) for c in step.get("chunks", ()))
+    if not da_mode and meth == "dist":
+        return _placeholder(shape, "float64")
     if not da_mode:
         if meth in ("permutation", "choice_a"):
             return A[0] if meth == "permutation" else _placeholder(shape, A[0].dtype)
@@ -479,6 +490,8 @@ def apply_random(step, A, m, da_mode):
     else:
         m.random.seed(seed)
         g = m.random
+    if meth == "dist":
+        return call_dist(step, g)
     if meth == "permutation":
         return g.permutation(A[0])
     if meth == "choice_a":
@@ -630,7 +643,7 @@ def apply_inplace(step, env, m, da_mode):
     raise KeyError(op)
 
 
-OPS = {"create", "store", "peek", "setitem_ip", "setitem_mask_ip", "out_ip", "out2_ip", "red_out_ip", "chunks_set_ip"}
+OPS = {"create", "store", "peek", "setitem_ip", "setitem_mask_ip", "out_ip", "out2_ip", "red_out_ip", "chunks_set_ip", "aop"}
 
 
 def handles(step):
@@ -646,6 +659,8 @@ def apply_step(step, env, m, da_mode):
         return apply_create(step, A, m, da_mode)
     if op == "store":
         return apply_store(step, A, m, da_mode)
+    if op == "aop":
+        return apply_aop(step, A, m, da_mode)
     return apply_inplace(step, env, m, da_mode)
 
 
@@ -1059,5 +1074,423 @@ def inplace_programs(rng, step_fn, extra):
             if not has_update(g.prog) and not any(st["op"] == "compute_chunk_sizes" for st in g.prog):
                 continue
             out.append((("inplace", kind, what, order), g.prog))
+            break
+    return out
+
+
+# ------------------------------------------------------------------ array-valued parameters and operands
+#
+# `create` steps with "fn": "<rng|rs|mod>.dist": one call of a distribution `dist` whose parameters are given as
+# "params": [{"form": F, "lo": a, "hi": b, "int": bool}, ...]; the VALUES are a fixed ramp between lo and hi (valid for the
+# distribution), the FORM says which object carries them:
+#     scalar / npscalar / zerod (0-d ndarray) / list1 ([v]) / list (len = last axis; last axis in one chunk) /
+#     ndarray (1-d, len = last axis) / col ((n0, 1, ...) column) / full (the whole `size`) / strided / readonly / fortran
+# `aop` steps: an API call whose OPERAND is a NumPy array / list (x + A, A + x, np.add(A, x), where, clip, isin, digitize,
+# take / x[A], concatenate / stack / append / insert, tensordot / matmul, map_blocks / blockwise literals, full / full_like,
+# x[idx] = A, average(weights=A), histogram(bins=A), pad(constant_values=A)).
+# A NumPy array (any layout), a list, a NumPy scalar tokenize by VALUE (dask.tokenize says so: the oracle), so equal inputs
+# must give equal names and optimized graph keys in this process and in a fresh one.
+
+DISTS = {
+    "beta": [(0.5, 3), (0.5, 3)],
+    "binomial": [(1, 10, True), (0.1, 0.9)],
+    "chisquare": [(1, 5)],
+    "exponential": [(0.5, 3)],
+    "f": [(2, 6), (3, 8)],
+    "gamma": [(0.5, 3), (0.5, 2)],
+    "geometric": [(0.1, 0.9)],
+    "gumbel": [(-2, 2), (0.5, 2)],
+    "hypergeometric": [(5, 9, True), (4, 8, True), (1, 4, True)],
+    "laplace": [(-2, 2), (0.5, 2)],
+    "logistic": [(-2, 2), (0.5, 2)],
+    "lognormal": [(-1, 1), (0.1, 1)],
+    "logseries": [(0.1, 0.9)],
+    "negative_binomial": [(1, 6), (0.1, 0.9)],
+    "noncentral_chisquare": [(1, 5), (0.5, 3)],
+    "noncentral_f": [(2, 6), (3, 8), (0.5, 3)],
+    "normal": [(-5, 5), (0.5, 2)],
+    "pareto": [(1, 4)],
+    "poisson": [(0, 20)],
+    "power": [(0.5, 3)],
+    "rayleigh": [(0.5, 3)],
+    "standard_gamma": [(0.5, 3)],
+    "standard_t": [(1, 6)],
+    "triangular": [(-3, -1), (0, 1), (2, 4)],
+    "uniform": [(-3, 0), (1, 4)],
+    "vonmises": [(-1, 1), (0.5, 3)],
+    "wald": [(0.5, 3), (0.5, 3)],
+    "weibull": [(0.5, 3)],
+    "zipf": [(1.5, 4)],
+    # special shapes of parameters
+    "multinomial": "special",   # (n, pvals): pvals a list / ndarray of probabilities, output gets an extra axis
+    "choice": "special",        # RandomState.choice(a, p=): population and probabilities as ndarray / list
+    "integers": [(0, 3, True), (5, 9, True)],  # Generator.integers / RandomState.randint (array bounds may be refused)
+}
+ARRAY_FORMS = ("ndarray", "col", "full", "strided", "readonly", "fortran", "zerod")
+PARAM_FORMS = ("scalar", "npscalar", "list1", "list") + ARRAY_FORMS
+
+
+def _ramp(n, lo, hi, integer):
+    v = lo + (hi - lo) * (np.arange(n, dtype="float64") + 1) / (n + 1)
+    return np.round(v).astype("int64") if integer else v
+
+
+def make_param(spec, size):
+    """the parameter object of one distribution parameter (a NEW object on every call)"""
+    form = spec["form"]
+    lo, hi, integer = spec["lo"], spec["hi"], bool(spec.get("int"))
+    size = tuple(size)
+    if form in ("scalar", "npscalar", "zerod", "list1"):
+        v = _ramp(1, lo, hi, integer)[0]
+        if form == "scalar":
+            return int(v) if integer else float(v)
+        if form == "npscalar":
+            return v
+        if form == "zerod":
+            return np.array(v)
+        return [int(v) if integer else float(v)]
+    last = size[-1] if size else 1
+    if form == "list":
+        return _ramp(last, lo, hi, integer).tolist()
+    if form == "ndarray":
+        return _ramp(last, lo, hi, integer)
+    if form == "col":
+        n0 = size[0] if len(size) > 1 else last
+        return _ramp(n0, lo, hi, integer).reshape((n0,) + (1,) * (len(size) - 1)) if len(size) > 1 else _ramp(last, lo, hi, integer)
+    n = int(np.prod(size)) if size else 1
+    full = _ramp(n, lo, hi, integer).reshape(size)
+    if form == "full":
+        return full
+    if form == "readonly":
+        full.setflags(write=False)
+        return full
+    if form == "fortran":
+        return np.asfortranarray(full)
+    if form == "strided":
+        big = np.zeros(tuple(2 * d for d in size), dtype=full.dtype)
+        view = big[tuple(slice(None, None, 2) for _ in size)]
+        view[...] = full
+        return view
+    raise KeyError(form)
+
+
+def dist_size(step):
+    return tuple(step.get("size", step.get("shape", ())))
+
+
+def param_objects(step):
+    """fresh parameter / operand objects of a `create` (dist) or `aop` step (what the tokenization oracle looks at)"""
+    if step["op"] == "aop":
+        return [make_operand(step)]
+    dist = step.get("dist")
+    if dist == "multinomial":
+        return [make_pvals(step)]
+    if dist == "choice":
+        a, p = make_choice_args(step)
+        return [o for o in (a, p) if o is not None]
+    return [make_param(sp, dist_size(step)) for sp in step.get("params", [])]
+
+
+def make_pvals(step):
+    k = step["k"]
+    p = (np.arange(k, dtype="float64") + 1) / (k * (k + 1) / 2)
+    return p.tolist() if step["pform"] == "list" else (np.asfortranarray(p) if step["pform"] == "fortran" else p)
+
+
+def make_choice_args(step):
+    n = step["n"]
+    a = np.arange(n, dtype="int64") * 3 + 1
+    a = {"ndarray": a, "list": a.tolist(), "int": n}[step["aform"]]
+    if step.get("pform") is None:
+        return a, None
+    p = (np.arange(n, dtype="float64") + 1) / (n * (n + 1) / 2)
+    return a, (p.tolist() if step["pform"] == "list" else p)
+
+
+def has_array_param(prog):
+    """a random call one of whose parameters is a non-scalar NumPy array (dask_array turns it into a dask array operand)"""
+    for st in prog:
+        if st["op"] == "create" and st.get("dist"):
+            if st["dist"] == "choice" and st.get("aform") in ("ndarray", "list"):
+                return "choice"
+            if st["dist"] == "multinomial":
+                continue
+            if any(sp["form"] in ARRAY_FORMS and sp["form"] != "zerod" for sp in st.get("params", [])):
+                return "param"
+    return None
+
+
+def call_dist(step, g):
+    dist = step["dist"]
+    size = dist_size(step)
+    chunks = tuple(tuple(c) for c in step["chunks"])
+    if dist == "multinomial":
+        return g.multinomial(step["n"], make_pvals(step), size=size, chunks=chunks[: len(size)])
+    if dist == "choice":
+        a, p = make_choice_args(step)
+        return g.choice(a, size=size, p=p, chunks=chunks)
+    args = [make_param(sp, size) for sp in step["params"]]
+    meth = dist
+    if dist == "integers" and not hasattr(g, "integers"):
+        meth = "randint"
+    return getattr(g, meth)(*args, size=size, chunks=chunks)
+
+
+# --- array operands of ordinary API calls
+
+AOPS = ("add_r", "add_l", "np_add", "where", "where_cond", "clip", "isin", "digitize", "take", "getitem_arr", "getitem_bool", "concatenate",
+        "stack", "append", "insert", "tensordot", "matmul", "mb_kwarg", "bw_literal", "full", "full_like", "setitem_val", "average_w",
+        "histogram", "pad_const", "einsum", "maximum")
+OPERAND_FORMS = ("ndarray", "list", "readonly", "strided", "fortran")
+
+
+def _addvec(block, vec=None):
+    return block + np.asarray(vec).sum()
+
+
+def _addarg(block, other):
+    return block + np.asarray(other).sum()
+
+
+def _layout(a, form):
+    if form == "ndarray":
+        return a
+    if form == "list":
+        return a.tolist()
+    if form == "readonly":
+        a.setflags(write=False)
+        return a
+    if form == "fortran":
+        return np.asfortranarray(a)
+    if form == "strided":
+        big = np.zeros(tuple(2 * d for d in a.shape), dtype=a.dtype)
+        v = big[tuple(slice(None, None, 2) for _ in a.shape)]
+        v[...] = a
+        return v
+    raise KeyError(form)
+
+
+def make_operand(step):
+    """the NumPy / list operand of an `aop` step (a NEW object on every call); its shape is recorded in the step"""
+    oshape = tuple(step["oshape"])
+    n = int(np.prod(oshape)) if oshape else 1
+    kind = step.get("okind", "int")
+    if kind == "index":
+        a = (np.arange(n, dtype="int64") * 2) % max(1, step["omod"])
+    elif kind == "bool":
+        a = (np.arange(n) % 3 != 1)
+    elif kind == "bins":
+        a = np.arange(n, dtype="int64") * 3 - 2
+    elif kind == "weights":
+        a = (np.arange(n, dtype="float64") + 1)
+    else:
+        a = (np.arange(n, dtype="int64") * 5 + step.get("ooff", 0)) % 13
+    return _layout(a.reshape(oshape), step.get("form", "ndarray"))
+
+
+def aop_spec(fn, x, rng):
+    """operand shape / kind for `fn` applied to an array of x's shape (None: not applicable)"""
+    nd, shp = x.ndim, x.shape
+    if nd == 0 or 0 in shp or x.dtype.kind not in "iu":
+        return None
+    if fn in ("add_r", "add_l", "np_add", "maximum", "where"):
+        return {"oshape": list(rng.choice([shp, shp[-1:], (1,) * nd]))}
+    if fn == "where_cond":
+        return {"oshape": list(shp), "okind": "bool"}
+    if fn == "clip":
+        return {"oshape": list(shp[-1:])}
+    if fn == "isin":
+        return {"oshape": [rng.randint(1, 4)]}
+    if fn in ("digitize", "histogram"):
+        return {"oshape": [rng.randint(2, 4)], "okind": "bins"}
+    if fn in ("take", "getitem_arr"):
+        return {"oshape": [rng.randint(1, 4)], "okind": "index", "omod": shp[0]}
+    if fn == "getitem_bool":
+        return {"oshape": [shp[0]], "okind": "bool"}
+    if fn in ("concatenate", "append"):
+        return {"oshape": [rng.randint(1, 3)] + list(shp[1:])}
+    if fn == "stack":
+        return {"oshape": list(shp)}
+    if fn == "insert":
+        return {"oshape": list(shp[1:]) if nd > 1 else [1]}
+    if fn in ("tensordot", "matmul"):
+        return {"oshape": [shp[-1], rng.randint(1, 3)]}
+    if fn == "einsum":
+        return {"oshape": [shp[-1]]}
+    if fn in ("mb_kwarg", "bw_literal"):
+        return {"oshape": [rng.randint(1, 3)]}
+    if fn in ("full", "full_like", "pad_const"):
+        return {"oshape": []}
+    if fn == "setitem_val":
+        return {"oshape": list(shp[1:]) if nd > 1 else [1]}
+    if fn == "average_w":
+        return {"oshape": list(shp), "okind": "weights"}
+    raise KeyError(fn)
+
+
+def apply_aop(step, A, m, da_mode):
+    fn = step["fn"]
+    x = A[0]
+    o = make_operand(step)
+    onp = np.asarray(o)
+    if fn == "add_r":
+        return x + o if not isinstance(o, list) else m.add(x, o)
+    if fn == "add_l":
+        return o + x if not isinstance(o, list) else m.add(o, x)
+    if fn == "np_add":
+        return np.add(o, x)
+    if fn == "maximum":
+        return m.maximum(x, o)
+    if fn == "where":
+        return m.where(x % 2 == 0, x, o)
+    if fn == "where_cond":
+        return m.where(o, x, 0)
+    if fn == "clip":
+        return m.clip(x, o, 11)
+    if fn == "isin":
+        return m.isin(x, o)
+    if fn == "digitize":
+        return m.digitize(x, bins=o)
+    if fn == "histogram":
+        return m.histogram(x, bins=o)[0]
+    if fn == "take":
+        return m.take(x, o, axis=0)
+    if fn in ("getitem_arr", "getitem_bool"):
+        return x[o]
+    if fn == "concatenate":
+        return m.concatenate([x, o], axis=0)
+    if fn == "stack":
+        return m.stack([x, o], axis=0)
+    if fn == "append":
+        return m.append(x, o, axis=0)
+    if fn == "insert":
+        return m.insert(x, 1, o, axis=0)
+    if fn == "tensordot":
+        return m.tensordot(x, o, axes=1)
+    if fn == "matmul":
+        return x @ onp if isinstance(o, list) else x @ o
+    if fn == "einsum":
+        sub = "ijk"[: x.ndim]
+        return m.einsum(f"{sub},{sub[-1]}->{sub[:-1]}", x, o)
+    if fn == "mb_kwarg":
+        return x.map_blocks(_addvec, vec=o, dtype=x.dtype) if da_mode else _addvec(x, o)
+    if fn == "bw_literal":
+        sub = "ijk"[: x.ndim]
+        return m.blockwise(_addarg, sub, x, sub, o, None, dtype=x.dtype) if da_mode else _addarg(x, o)
+    if fn == "full":
+        return m.full(x.shape, o, dtype="int64", **({"chunks": x.chunks} if da_mode else {})) + x
+    if fn == "full_like":
+        return m.full_like(x, o)
+    if fn == "pad_const":
+        return m.pad(x, 1, mode="constant", constant_values=o)
+    if fn == "setitem_val":
+        y = x.copy()
+        y[0] = o
+        return y
+    if fn == "average_w":
+        return m.average(x, weights=o)
+    raise KeyError(fn)
+
+
+def _mk_dist_step(rng, fam, dist, forms):
+    """a `create` step calling `dist` through front end `fam` with the given parameter forms (None: random)"""
+    nd = rng.choice([1, 2, 2])
+    size = [rng.randint(2, 5) for _ in range(nd)]
+    st = {"op": "create", "fn": f"{fam}.dist", "dist": dist, "dtype": "float64", "seed": rng.randint(0, 10**6)}
+    if dist == "multinomial":
+        k = rng.randint(2, 4)
+        st.update(n=rng.randint(3, 9), k=k, pform=forms[0] if forms else rng.choice(["list", "ndarray", "fortran"]), size=size, shape=size + [k])
+        st["chunks"] = [list(c) for c in programs.rand_chunks_nd(rng, size)] + [[k]]
+        return st
+    if dist == "choice":
+        n = rng.randint(3, 7)
+        st.update(n=n, aform=forms[0] if forms else rng.choice(["ndarray", "list", "int"]), pform=(forms[1] if forms else rng.choice([None, "ndarray", "list"])),
+                  shape=size[:1], chunks=[list(gen.rand_chunks(rng, size[0]))])
+        return st
+    st["shape"] = size
+    chunks = [list(c) for c in programs.rand_chunks_nd(rng, size)]
+    spec = DISTS[dist]
+    params = []
+    for i, dom in enumerate(spec):
+        form = forms[i % len(forms)] if forms else rng.choice(PARAM_FORMS)
+        if form == "col" and nd == 1:
+            form = "ndarray"
+        params.append({"form": form, "lo": dom[0], "hi": dom[1], "int": bool(len(dom) > 2 and dom[2])})
+    if any(p["form"] == "list" for p in params):
+        chunks[-1] = [size[-1]]  # a list is handed to every block as it is: it must fit every block's last axis
+    if dist not in ("normal", "poisson") and any(p["form"] in ARRAY_FORMS and p["form"] != "zerod" for p in params) and rng.random() < 0.75:
+        # known C23 finding `random:array-param:generic-distribution:compute-raises`: the generic Random node hands the WHOLE
+        # parameter array to every block, more than one output block raises at compute.  Three quarters of these programs
+        # use one block (everything is compared); the others are still built twice / in fresh processes (names)
+        chunks = [[n] for n in size]
+    st.update(params=params, chunks=chunks)
+    return st
+
+
+def array_param_programs(rng, step_fn, extra, rotate=0, quick=True):
+    """[(label, program)]: EVERY distribution with array-valued parameters in every run (front end and array form rotate with
+    the run's seed in the quick tier: each of Generator / RandomState / module level and each form is reached within a few
+    seeds; thorough: all front ends), the special-shaped parameters (multinomial pvals, choice population / p), every
+    array-operand call, then random combinations."""
+    fams = ("rng", "rs", "mod")
+    specs = []
+    for i, dist in enumerate(sorted(DISTS)):
+        if dist == "choice":
+            for af, pf in (("ndarray", None), ("list", "ndarray"), ("int", "list"), ("ndarray", "ndarray")):
+                specs.append(("rs", dist, [af, pf]))
+            continue
+        use = fams if not quick else (fams[(i + rotate) % 3],)
+        for j, fam in enumerate(use):
+            if dist == "multinomial":
+                specs.append((fam, dist, [("list", "ndarray", "fortran")[(i + j + rotate) % 3]]))
+                continue
+            nparam = len(DISTS[dist])
+            # one array-valued parameter at a time (position rotates), the others scalar; plus one all-array call
+            pos = (i + j + rotate) % nparam
+            form = ARRAY_FORMS[(i + 2 * j + rotate) % len(ARRAY_FORMS)]
+            specs.append((fam, dist, [form if q == pos else "scalar" for q in range(nparam)]))
+            if not quick or (i + rotate) % 4 == 0:
+                specs.append((fam, dist, [("list", "ndarray", "npscalar", "list1")[(i + q + rotate) % 4] for q in range(nparam)]))
+    specs += [(rng.choice(fams), rng.choice(sorted(DISTS)), None) for _ in range(extra)]
+    out = []
+    for fam, dist, forms in specs:
+        if dist == "choice":
+            fam = "rs"  # Generator.choice: known finding, one dedicated probe in C07
+        for _ in range(6):
+            g = _new(rng, step_fn)
+            try:
+                st = _mk_dist_step(rng, fam, dist, forms)
+                g.add(st)
+                nonscalar = any(sp["form"] == "list" or (sp["form"] in ARRAY_FORMS and sp["form"] != "zerod") for sp in st.get("params", []))
+                if nonscalar and (dist not in ("normal", "poisson") or any(sp["form"] == "list" for sp in st["params"])):
+                    # generic Random node with a non-scalar parameter: its `_meta` (a call with size (0, ...)) raises, so
+                    # every derived operation raises at construction (same known C23 family): the bare draw is the program
+                    pass
+                else:
+                    add_tail(g, rng.choice(TAILS))
+            except _Skip:
+                continue
+            out.append((("create-array-param", dist, fam if not quick else "*", "random" if forms is None else ",".join(map(str, forms))), g.prog))
+            break
+    # array operands
+    fns = list(AOPS) + [rng.choice(AOPS) for _ in range(extra)]
+    for k, fn in enumerate(fns):
+        form = OPERAND_FORMS[(k + rotate) % len(OPERAND_FORMS)] if k < len(AOPS) else rng.choice(OPERAND_FORMS)
+        for _ in range(8):
+            g = _new(rng, step_fn)
+            try:
+                g.new_source()
+                if rng.random() < 0.3:
+                    add_tail(g, rng.choice(["affine", "rechunk"]))
+                sp = aop_spec(fn, g.env[g.last], rng)
+                if sp is None:
+                    continue
+                if form == "fortran" and len(sp["oshape"]) < 2:
+                    form = "strided"
+                g.add({"op": "aop", "fn": fn, "args": [g.last], "form": form, "ooff": rng.randint(0, 5), **sp})
+                add_tail(g, rng.choice(["none", "none", "affine", "sum", "slice"]))
+            except _Skip:
+                continue
+            out.append((("array-operand", fn, form), g.prog))
             break
     return out
